@@ -42,6 +42,8 @@ def main(argv=None):
     ap.add_argument("--only", default=None)
     ap.add_argument("--no-thorough", action="store_true")
     ap.add_argument("--extra", default="", help="comma separated extra property ids to run against every change")
+    ap.add_argument("--tests", action="store_true", help="also run the repository's test suite (minus the two ~20 min "
+                    "Q-GMRES scale tests) on the patched copy")
     a = ap.parse_args(argv)
     respath = os.path.join(VERIF, "seeded", "RESULTS.json")
     results = {}
@@ -67,6 +69,15 @@ def main(argv=None):
                 if os.path.exists(demo):
                     rec["demo_clean_exit"] = run_demo(demo, clean)
                     rec["demo_patched_exit"] = run_demo(demo, patched)
+                if a.tests:
+                    tp = subprocess.run([sys.executable, "-m", "pytest", "-q", "-p", "no:cacheprovider", "--timeout=900",
+                                         "-n", "4", "tests",
+                                         "--deselect", "tests/QGMRES/test_qgmres_large.py::test_qgmres_scalability",
+                                         "--deselect", "tests/QGMRES/test_qgmres_large.py::test_qgmres_large_scale"],
+                                        cwd=patched, env=dict(os.environ, PYTHONPATH=patched), capture_output=True, text=True)
+                    tail = [l for l in tp.stdout.strip().splitlines() if l.strip()][-1:] or [""]
+                    rec["tests_exit"] = tp.returncode
+                    rec["tests_summary"] = tail[0][-160:]
                 pids = [pid] + [x for x in a.extra.split(",") if x and x != pid]
                 for q in pids:
                     key = "quick" if q == pid else f"quick[{q}]"
